@@ -7,6 +7,7 @@
 -/
 import LpProofs.C04.Basic
 import LpProofs.C04.Assign
+import LpModel.C04.History
 import Mathlib.LinearAlgebra.Matrix.Trace
 import Mathlib.LinearAlgebra.CrossProduct
 import Mathlib.Logic.Equiv.Fin.Basic
@@ -693,6 +694,76 @@ theorem wellShaped_minusAssign {A B C : Mat} (hA : A.WellShaped) (h : minusAssig
   unfold minusAssign at h; split at h
   · cases h
   · cases h; exact (mUpdLoop_spec _ A B hA).1
+
+
+/-! ## Object histories: every observer is a function of the current value only
+
+In the model a `Vector` / `Matrix` object *is* its current value (`Vec` / `Mat`); `Hist.runS`
+threads that value through a sequence of member calls.  So what the observers report after any
+prefix depends on the prefix only through the value it leaves — by construction; the theorems
+below say it explicitly.  (The correspondence run `c04.vhist` / `c04.mhist` checks that the C++
+objects have no further state either, e.g. no stale cached norm.) -/
+
+theorem runS_append {σ ο : Type} (step : σ → ο → Except Err (σ × List ℚ)) (s : σ) (a b : List ο) :
+    Hist.runS step s (a ++ b) =
+      match Hist.runS step s a with
+      | .error e => .error e
+      | .ok (s1, o1) =>
+        match Hist.runS step s1 b with
+        | .error e => .error e
+        | .ok (s2, o2) => .ok (s2, o1 ++ o2) := by
+  induction a generalizing s with
+  | nil =>
+    simp only [List.nil_append, Hist.runS]
+    cases Hist.runS step s b with
+    | error e => rfl
+    | ok r => rfl
+  | cons x a ih =>
+    simp only [List.cons_append, Hist.runS]
+    cases hx : step s x with
+    | error e => rfl
+    | ok r =>
+      obtain ⟨s1, out1⟩ := r
+      simp only [ih s1]
+      cases Hist.runS step s1 a with
+      | error e => rfl
+      | ok r2 =>
+        obtain ⟨s2, out2⟩ := r2
+        simp only
+        cases Hist.runS step s2 b with
+        | error e => rfl
+        | ok r3 => simp [List.append_assoc]
+
+/-- two histories that leave the same value are indistinguishable by anything that follows:
+    the same outcome, the same final value and the same reported observer values -/
+theorem history_independent {σ ο : Type} (step : σ → ο → Except Err (σ × List ℚ)) {s1 s2 s : σ}
+    {a1 a2 : List ο} {o1 o2 : List ℚ} (h1 : Hist.runS step s1 a1 = .ok (s, o1))
+    (h2 : Hist.runS step s2 a2 = .ok (s, o2)) (b : List ο) :
+    (∀ s' ob, Hist.runS step s b = .ok (s', ob) →
+      Hist.runS step s1 (a1 ++ b) = .ok (s', o1 ++ ob) ∧ Hist.runS step s2 (a2 ++ b) = .ok (s', o2 ++ ob)) ∧
+    (∀ e, Hist.runS step s b = .error e →
+      Hist.runS step s1 (a1 ++ b) = .error e ∧ Hist.runS step s2 (a2 ++ b) = .error e) := by
+  constructor
+  · intro s' ob hb
+    rw [runS_append, runS_append, h1, h2]; simp [hb]
+  · intro e hb
+    rw [runS_append, runS_append, h1, h2]; simp [hb]
+
+/-- instances: `Vector` and `Matrix` histories -/
+theorem vector_history_independent {v1 v2 v : Vec} {a1 a2 : List Hist.VOp} {o1 o2 : List ℚ}
+    (h1 : Hist.runS Hist.vStep v1 a1 = .ok (v, o1)) (h2 : Hist.runS Hist.vStep v2 a2 = .ok (v, o2))
+    (b : List Hist.VOp) (v' : Vec) (ob : List ℚ) (hb : Hist.runS Hist.vStep v b = .ok (v', ob)) :
+    Hist.runS Hist.vStep v1 (a1 ++ b) = .ok (v', o1 ++ ob) ∧ Hist.runS Hist.vStep v2 (a2 ++ b) = .ok (v', o2 ++ ob) :=
+  (history_independent Hist.vStep h1 h2 b).1 v' ob hb
+
+theorem matrix_history_independent {A1 A2 A : Mat} {a1 a2 : List Hist.MOp} {o1 o2 : List ℚ}
+    (h1 : Hist.runS Hist.mStep A1 a1 = .ok (A, o1)) (h2 : Hist.runS Hist.mStep A2 a2 = .ok (A, o2))
+    (b : List Hist.MOp) (A' : Mat) (ob : List ℚ) (hb : Hist.runS Hist.mStep A b = .ok (A', ob)) :
+    Hist.runS Hist.mStep A1 (a1 ++ b) = .ok (A', o1 ++ ob) ∧ Hist.runS Hist.mStep A2 (a2 ++ b) = .ok (A', o2 ++ ob) :=
+  (history_independent Hist.mStep h1 h2 b).1 A' ob hb
+
+-- v = (3,4): Norm, v -= (3,0), Norm reports 25 then 16 (squares): the second value is that of the current entries
+example : Hist.vRun [3, 4] [.norm, .subA [3, 0], .norm] = .ok [25, 16] := by decide +kernel
 
 /-! ## Non-vacuity: concrete instances of the hypotheses -/
 
